@@ -8,7 +8,7 @@ COMMON_TRUSTED_BASE = [
 
 PROPS = {}
 NOT_CLAIMED = {}
-HOOK_COMMITS = ["7ec16b3d", "7b24226a", "84b9c3d7"]
+HOOK_COMMITS = ["7ec16b3d", "7b24226a", "84b9c3d7", "6b48c09b"]
 
 PROPS["C14"] = dict(
     level="proof",
@@ -218,6 +218,41 @@ PROPS["C04"] = dict(
     exhaustive_note="every fault position k for each listed job (thorough tier; quick tier subsamples jobs with > 60 vertices)",
     trusted_base=["Model/GeomBuilder.v follows BuffersBuilder in geometry_builder.rs; tools/gen.py skeleton translator"],
     assumptions=["vertex_offset chosen by the user does not overflow u32 (not checked by lyon)"],
+)
+
+PROPS["C07"] = dict(
+    level="translation_validation",
+    level_text="Two parts. (1) PROVED (Props/C07.v) about the statement-level model Model/Sources.v: remap_t_in_range is the "
+               "affine map start + v (end - start) in both branches; cutting a piece of an input edge at a local parameter "
+               "(process_intersection, merge_coincident_edges, and since the fix process_edges_above) makes both parts meet at "
+               "the point at that fraction, for ANY sequence of cuts; the pre-fix discipline (lower part keeps the stale start) "
+               "is refuted on the property's own example; a curve flattened in reverse is the original at 1 - t; the source "
+               "iterator returns no consecutive duplicates, represents every sibling, is non-empty for a non-empty sibling list "
+               "and as_endpoint_id is its first endpoint; interpolated_attributes in exact arithmetic is the average over the "
+               "sources, and attributes that are an affine function of position are reproduced at every vertex whose sources "
+               "are sound endpoints / line edges (ANY number of sources and attributes). (2) VALIDATED per run: every vertex "
+               "handed to a recording FillGeometryBuilder is resolved against the INPUT path and sent to the model: sources "
+               "non-empty; endpoint sources at exactly the vertex position; line-edge sources within the slack in exact "
+               "arithmetic; the attributes returned equal the model's f32 evaluation bit for bit; remap_t_in_range (hook) "
+               "equals the f32 model bit for bit; curve sources are checked against the exact Bezier in the harness.",
+    level_note="That the SWEEP always produces sound sources is validated on the generated inputs, not proved: the theorems are "
+               "about the range algebra, the iterator and the attribute arithmetic. Known finding K11 (chord-linear parameter "
+               "on curves). Slack = tolerance + 1.2e-3 (the sweep snaps vertices to edges within half the tolerance).",
+    technique="Coq theorems over a statement-level model + per-vertex differential evaluation (bit-exact f32 model)",
+    coq_targets=["theories/Props/C07.vo", "theories/Run/C07.vo"],
+    props_file="theories/Props/C07.v",
+    props_module="Props.C07",
+    harness=[dict(sub="c07", profile="debug"), dict(sub="c07", profile="release")],
+    rule="paths: crafted (vertex on an edge + crossing below, partially shared edges, shared vertex of 4 edges, bow-tie, three "
+         "edges through a point), random lattice polygons (1-4 sub-paths, grids 5 and 8), random curved paths (lines, "
+         "quadratics, cubics); 0-3 attributes, affine in position or arbitrary; both fill rules and orientations; tolerance "
+         "0.01 / 0.05 / 0.2; entry points tessellate_with_ids, tessellate_path, builder_with_attributes; every vertex is "
+         "checked directly, vertices with several sources or an edge source (and a quarter of the others) go to Coq; "
+         "non-trivial = path with more than one sub-path",
+    exhaustive_note="none (random inputs)",
+    trusted_base=["Model/Sources.v follows fill.rs (remap_t_in_range, VertexSourceIterator, as_endpoint_id, "
+                  "interpolated_attributes); harness resolution of ids to input geometry (harness/src/c07.rs)"],
+    assumptions=["finite coordinates and attributes"],
 )
 
 PROPS["C08"] = dict(
